@@ -47,6 +47,10 @@ type Case struct {
 	// Earlier: scheme lists of operations that were built on the same transport before this one (their URLs are not
 	// judged): what an earlier operation offered decides nothing for a later one.
 	Earlier [][]string `json:"earlier,omitempty"`
+	// EarlierBase: the transport was created with this base path (text as handed to client.New, query included) and
+	// built the earlier operations under it; the application then assigned the case's base path to Runtime.BasePath
+	// (as New would have stored it). "-" stands for no such history.
+	EarlierBase string `json:"earlier_base,omitempty"`
 }
 
 // Model ------------------------------------------------------------------------------------------------
@@ -226,8 +230,8 @@ func InDomain(c Case) (model, string) {
 	}
 	seenQ := map[string]bool{}
 	for _, q := range c.Query {
-		if seenQ[string(q.Key)] || len(q.Vals) == 0 {
-			return m, "query parameter set twice or without a value"
+		if seenQ[string(q.Key)] {
+			return m, "query parameter set twice"
 		}
 		seenQ[string(q.Key)] = true
 	}
@@ -305,6 +309,9 @@ func wantQuery(c Case) (url.Values, [3]url.Values) {
 	pq, _ := url.ParseQuery(c.PatQuery)
 	cq := url.Values{}
 	for _, q := range c.Query {
+		// a parameter the caller set without any value (an empty array) is set all the same: it overrides the static
+		// parameters of that name, and nothing of it goes on the wire
+		cq[string(q.Key)] = []string{}
 		for _, v := range q.Vals {
 			cq.Add(string(q.Key), string(v))
 		}
@@ -318,6 +325,9 @@ func wantQuery(c Case) (url.Values, [3]url.Values) {
 	}
 	for k, v := range cq {
 		w[k] = v
+		if len(v) == 0 {
+			delete(w, k)
+		}
 	}
 	return w, [3]url.Values{bq, pq, cq}
 }
@@ -353,9 +363,19 @@ func buildOnce(c Case, order []int) (req *http.Request, err error, v *kit.Violat
 	}
 	v = kit.Guard("Runtime.CreateHttpRequest", func() {
 		rt := client.New(c.Host, base, c.RtSchemes)
+		if c.EarlierBase != "" {
+			rt = client.New(c.Host, strings.TrimPrefix(c.EarlierBase, "-"), c.RtSchemes)
+			if len(c.Earlier) == 0 {
+				_, _ = rt.CreateHttpRequest(&runtime.ClientOperation{ID: "earlier", Method: http.MethodGet, PathPattern: "/earlier",
+					Params: runtime.ClientRequestWriterFunc(func(runtime.ClientRequest, strfmt.Registry) error { return nil })})
+			}
+		}
 		for _, es := range c.Earlier {
 			_, _ = rt.CreateHttpRequest(&runtime.ClientOperation{ID: "earlier", Method: http.MethodGet, PathPattern: "/earlier", Schemes: es,
 				Params: runtime.ClientRequestWriterFunc(func(runtime.ClientRequest, strfmt.Registry) error { return nil })})
+		}
+		if c.EarlierBase != "" {
+			rt.BasePath = client.New(c.Host, base, nil).BasePath // the base path changes between requests
 		}
 		op := &runtime.ClientOperation{ID: "c10", Method: http.MethodGet, PathPattern: pattern, Schemes: c.OpSchemes,
 			Params: runtime.ClientRequestWriterFunc(func(r runtime.ClientRequest, _ strfmt.Registry) error {
@@ -717,6 +737,9 @@ func Classify(c Case) (bool, []string) {
 	}
 	if len(c.RtSchemes) > 0 && len(c.OpSchemes) > 0 {
 		labels["schemes: transport and operation"] = true
+	}
+	if c.EarlierBase != "" {
+		labels["base path reassigned after earlier requests"] = true
 	}
 	if len(c.Earlier) > 0 {
 		labels["schemes: earlier operations on the same transport"] = true
